@@ -194,7 +194,7 @@ PROPS = {
     "C09": dict(
         props="Props/C09.v", tables=["core", "fide", "afm", "glencoe", "json"],
         suites=[suite_xml.run_fide_third_party, suite_xml.run_fama, suite_afm.run_third_party,
-                suite_glencoe.run_third_party],
+                suite_glencoe.run_third_party, suite_known.run_c09_known],
         rule=("suites R-fide-3p / R-fama / R-afm-3p / R-glencoe-3p: documents produced by independent reference emitters "
               "written from the format definitions (FeatureIDE: graphics / description elements, mandatory=\"false\", "
               "attribute order, n-ary conj/disj, constraints section absent; FaMa: tag letter case, cardinality position, "
@@ -254,7 +254,7 @@ PROPS = {
     ),
     "C10": dict(
         props="Props/C10.v", tables=["core"],
-        suites=[suite_export.run_splot, suite_export.run_pl],
+        suites=[suite_export.run_splot, suite_export.run_pl, suite_known.run_c10_known],
         rule=("suites W-splot / W-pl: bytes of SPLOTWriter / PLWriter vs [render_splot] / [pl_lines]; suites S-splot / S-pl: "
               "an independent interpreter of each target format (SXFM tree + CNF clauses; pl configuration lines) enumerates "
               "the configurations the written file admits and compares them with the source model's valid configurations "
@@ -268,7 +268,7 @@ PROPS = {
     ),
     "C11": dict(
         props="Props/C11.v", tables=["core"],
-        suites=[suite_export.run_clafer],
+        suites=[suite_export.run_clafer, suite_known.run_c11_known],
         rule=("suites W-clafer (bytes of ClaferWriter vs [render_clafer]) and S-clafer (independent interpreter of the "
               "Clafer subset: group cardinalities xor/or/mux/[a..b], optional marker, constraints in brackets; instances "
               "enumerated and compared with the source model's valid configurations and with [clafer_sat]); every identifier "
@@ -295,7 +295,7 @@ def _c18_key(f):
 def _c10_key(f):
     if f["clause"].startswith("xe:"):
         return "splot-xor-equivalence-via-core-cnf"
-    return None
+    return _known_key(f)
 
 
 def _known_key(f):
@@ -305,7 +305,8 @@ def _known_key(f):
     return None
 
 
-FINDING_KEYS = {"C18": _c18_key, "C10": _c10_key, "C04": _known_key, "C01": _known_key, "C02": _known_key}
+FINDING_KEYS = {"C18": _c18_key, "C10": _c10_key, "C04": _known_key, "C01": _known_key, "C02": _known_key, "C09": _known_key,
+                "C11": _known_key}
 
 
 def replay(ctx, info, path):
